@@ -122,6 +122,7 @@ const (
 	verifTickQueued             // a frame was queued for the write loop
 	verifTickWritten            // the write loop has written (and released) a frame
 	verifTickDispatch           // a handler goroutine is about to be started
+	verifTickHandlerGone        // a handler returned after the stream loop had stopped
 	verifTickCount
 )
 
@@ -130,7 +131,7 @@ var verifTicks [verifTickCount]int64
 func verifTick(which int) { atomic.AddInt64(&verifTicks[which], 1) }
 
 // VerifTicks returns a snapshot of the counters.
-func VerifTicks() (out [7]int64) {
+func VerifTicks() (out [8]int64) {
 	for i := range out {
 		out[i] = atomic.LoadInt64(&verifTicks[i])
 	}
